@@ -162,6 +162,15 @@ META["C15"] = {
     "note": "Rejection side only: that every well-typed program is accepted, and the type equality itself, are not decided.",
     "technique": "static analysis: dominator/provenance rules on MIR call sites, must-dataflow typestate, call-graph panic inventory",
 }
+META["C16"] = {
+    "level": "Static agreement of two sibling tables (printer and grammar) over all node kinds and all their variant/Option/emptiness "
+             "cases, including the lexer's longest-match behaviour at every token/hole boundary. Reports the genuine `-0`/`(0)` "
+             "zero-comparison confusion as known findings.",
+    "design_ref": "DESIGN.md §4 C16 (R-PGRAM, R-LEX, R-TRAV/Print)",
+    "note": "Narrow: token-level agreement; equality of trees over layouts and idempotence of printing are consequences under the "
+            "trusted layout engine, not enumerated.",
+    "technique": "static analysis: abstract interpretation of Print impls into templates, grammar reader, longest-match lexer model",
+}
 
 NOT_APPLICABLE = {
     "C09": "Run-time heap invariant of *generated* code at every statement boundary of every execution; no path property of the "
@@ -171,5 +180,5 @@ NOT_APPLICABLE = {
 }
 # properties whose checks are not built yet are listed here until their rules exist (kept current by bin/gen-manifest)
 PENDING = "check not built yet in this round; planned rules are in DESIGN.md §4"
-for _p in ["C16"]:
+for _p in []:
     NOT_APPLICABLE.setdefault(_p, PENDING)
